@@ -51,9 +51,9 @@ def formatType : Nat → TR → Option (List Byte × TR)
         let (_, t3) := next t2
         some (bs ++ strOfAscii "[]", t3)
       else some (bs, { t2 with keep := true })
-where strOfAscii (s : String) : List Byte := s.toUTF8.toList
+where strOfAscii (s : String) : List Byte := s.toList.map (fun c => UInt8.ofNat c.toNat)
 
-def sq (s : String) : List Byte := s.toUTF8.toList
+def sq (s : String) : List Byte := s.toList.map (fun c => UInt8.ofNat c.toNat)
 
 /-- `[` + five tokens + newline (opcode / deprecated attributes) -/
 def fmtAttr (pre : List Byte) (t : TR) : List Byte × TR :=
